@@ -18,7 +18,7 @@ from ..seams import StepClock
 PROP = "C19"
 LEVEL = "exploration"
 RUNS = {"quick": 9000, "thorough": 400000}
-TIME_CAP = {"quick": 300, "thorough": 1500}
+TIME_CAP = {"quick": 300, "thorough": 900}
 RULE = ("enumerated block: every composition (ordered split into non-empty blocks) of signals of length 1..8 (thorough 1..12) for each of "
         "7 filter configurations; then seeded schedules: random splits (blocks of length 1, shorter/equal/longer than the filter memory) "
         "of random, extreme-valued and alternating-sign signals up to 5000 samples into FirFilter (1-9 random taps, every delay offset), "
